@@ -215,6 +215,22 @@ def inject_scripts(name0):
     return out, n
 
 
+def failing_creation_scripts(name0):
+    """a creation that cannot succeed (size 0) is stopped at the system-call gates behind its clean-up; another process creates and fills the same name at that moment;
+    the failing call then runs to its end - it must not touch what the other process made"""
+    out = []
+    n = name0
+    # (only from the gate behind the first shm_unlink on: while the zero-length segment of the failing creation exists, a second creator runs
+    # into the recorded finding "zero-size-seen")
+    for k in (4, 5, 6, 7):
+        n += 1
+        lines = ["B 1 shmnew 1 %d 0" % n] + ["S 1"] * k + ["P 2 shmnew 1 %d 4096" % n, "P 2 shmw 1 0 55", "P 2 shmw 1 4095 56", "F 1",
+                 "P 3 shmnew 1 %d 0" % n, "P 3 shmsize 1", "P 3 shmr 1 0", "P 3 shmr 1 4095", "P 3 shmlock 1", "P 3 shmunlock 1", "P 3 shmfree 1", "P 2 shmr 1 0", "P 2 shmfree 1",
+                 "P 1 shmfree 1", "P 1 shmnew 3 %d 16" % n, "P 1 shmown 3", "P 1 shmfree 3", "obs", "epoch"]
+        out.append(lines)
+    return out, n
+
+
 def free_crash_scripts(name0):
     out = []
     n = name0
@@ -265,6 +281,9 @@ def run(ctx):
     fc, nmax = free_crash_scripts(nmax)
     for lines, taint, n in fc:
         scripts.append(("freecrash", lines, []))
+    fcr, nmax = failing_creation_scripts(nmax)
+    for lines in fcr:
+        scripts.append(("failcreate", lines, []))
     inj, nmax = inject_scripts(nmax)
     for lines in inj:
         scripts.append(("inject", lines, []))
